@@ -558,3 +558,19 @@ package astisub
 //@   prop C08 C18 C19
 //@   requires writable(s) && o != nil
 //@ end
+
+//@ func parseTextWebVTT(i string, sa *StyleAttributes) (o Line)
+//@   prop C08
+//@   requires sa != nil
+//@ end
+
+//@ func (s Subtitles) WriteToWebVTT(o io.Writer) (err error)
+//@   prop C08 C18 C19
+//@   requires writable(s) && o != nil
+//@   loop 2: invariant forall m int :: 0 <= m && m < len(k) ==> has(s.Regions, k[m])
+//@   loop 2: invariant len(c) >= 1
+//@   loop 3: invariant len(c) >= 1
+//@   loop 4: invariant len(c) >= 1
+//@   loop 5: invariant len(c) >= 1
+//@   loop 6: invariant len(c) >= 1
+//@ end
